@@ -220,7 +220,7 @@ impl Check for C17 {
         if tier == Tier::Quick { 200 } else { 2000 }
     }
     fn required_counters(&self) -> Vec<&'static str> {
-        vec!["compactions_moving_entries", "arena_entries_compared", "batteries_compared", "retransmissions_compared", "refused_requests_checked", "acknowledged_entries_freed", "continuations_on_a_fresh_broker_session", "send_windows_refilled", "exchanges_ended_by_a_failure_code"]
+        vec!["compactions_moving_entries", "arena_entries_compared", "batteries_compared", "retransmissions_compared", "refused_requests_checked", "acknowledged_entries_freed", "continuations_on_a_fresh_broker_session", "send_windows_refilled", "exchanges_ended_by_a_failure_code", "windows_with_subscribe_requests_in_between"]
     }
     fn run(&self, workload: usize, seed: u64, _index: u64, tier: Tier, verbose: bool) -> CaseOut {
         let mut out = CaseOut::default();
@@ -290,7 +290,7 @@ fn window_recovery(rng: &mut Rng, seed: u64, verbose: bool) -> CaseOut {
     use crate::checks::{connect_with, poll0, pubq, run_script};
     use crate::exec::{ErrRepr, OkKind, Outcome};
     use crate::refcodec::{Prop, SPacket};
-    use crate::steps::{BrokerAct, SpMode};
+    use crate::steps::{BrokerAct, FilterSpec, SpMode, SubSpec, UnsubSpec};
     let mut out = CaseOut::default();
     let rm: Option<u16> = *rng.pick(&[Some(1u16), Some(1), Some(2), Some(3), Some(8), None, Some(20)]);
     let window = rm.map(|r| r.min(8)).unwrap_or(8) as usize;
@@ -302,13 +302,29 @@ fn window_recovery(rng: &mut Rng, seed: u64, verbose: bool) -> CaseOut {
     let codes = [0x80u8, 0x83, 0x87, 0x90, 0x91, 0x97, 0x99];
     for _ in 0..rounds {
         // fill the window (sometimes not completely)
-        let n = if rng.chance(1, 4) { 1 + rng.below(window) } else { window };
+        // (subscribe / unsubscribe requests share the table of retained packets, not the window)
+        let subs = rng.below(3);
+        let n = if rng.chance(1, 4) { 1 + rng.below(window) } else { window }.min(8 - subs);
         let mut open: Vec<(u16, u8)> = Vec::new();
+        let mut subs_left = subs;
         for k in 0..n {
+            if subs_left > 0 && rng.chance(1, 2) {
+                subs_left -= 1;
+                pid += 1;
+                let sub = rng.chance(1, 2);
+                steps.push(if sub { Step::Subscribe(SubSpec { filters: vec![FilterSpec { filter: "s/#".into(), max_qos: 1, no_local: false, rap: false, rh: 0 }], props: vec![], cancel_at: None }) } else { Step::Unsubscribe(UnsubSpec { filters: vec!["s".into()], props: vec![], cancel_at: None }) });
+                open.push((pid, if sub { 8 } else { 10 }));
+            }
             pid += 1;
             let qos = 1 + rng.below(2) as u8;
             steps.push(pubq(qos, "w", pid as u32, k % 3));
             open.push((pid, qos));
+        }
+        while subs_left > 0 {
+            subs_left -= 1;
+            pid += 1;
+            steps.push(Step::Subscribe(SubSpec { filters: vec![FilterSpec { filter: "s/#".into(), max_qos: 1, no_local: false, rap: false, rh: 0 }], props: vec![], cancel_at: None }));
+            open.push((pid, 8));
         }
         steps.push(poll0());
         rng.shuffle(&mut open);
@@ -316,6 +332,14 @@ fn window_recovery(rng: &mut Rng, seed: u64, verbose: bool) -> CaseOut {
             let fail = rng.chance(1, 2);
             let reason: Option<u8> = if fail { Some(*rng.pick(&codes)) } else { *rng.pick(&[None, Some(0u8), Some(0x10)]) };
             let props = if reason.is_some() && rng.chance(1, 4) { Some(vec![Prop::ReasonString("r".into())]) } else { None };
+            if qos >= 8 {
+                let code = if fail { 0x80 } else { 0 };
+                steps.push(Step::Broker(BrokerAct::Send(if qos == 8 { SPacket::SubAck { pid: id, props: vec![], codes: vec![code] } } else { SPacket::UnsubAck { pid: id, props: vec![], codes: vec![code] } })));
+                steps.push(poll0());
+                ended_by.push(format!("{}/{:#x}", if qos == 8 { "SUBACK" } else { "UNSUBACK" }, code));
+                out.count("windows_with_subscribe_requests_in_between", 1);
+                continue;
+            }
             if qos == 1 {
                 steps.push(Step::Broker(BrokerAct::Send(SPacket::PubAck { pid: id, reason, props })));
                 steps.push(poll0());
